@@ -288,6 +288,7 @@ struct World {
 };
 
 void register_world(World *w);
+void watchdog_arm(int cpu_seconds); // for a process forked inside a run (a reference sibling): its own processor-time budget
 std::string repo_root();   // SOUNDSWALLOWER_REPO or /repo
 std::string verif_root();  // directory holding MANIFEST.json
 
